@@ -122,7 +122,7 @@ pub struct StreamCase {
     pub program: Option<serde_json::Value>,
 }
 
-pub const FIXTURE: &str = "/repo/crates/jxl-oxide-tests/tests/cms/cmyk_layers.jxl";
+pub const FIXTURE: &str = "/repo/crates/jxl-oxide-tests/tests/cms/cmyk_layers.jxl"; // data file, never patched
 
 pub fn program_shape(p: &crate::jxlgen::Program) -> String {
     let mut s = format!(
